@@ -6,8 +6,8 @@
        dbl = 2P,  dbln[j] = 2^j * P  for j = 1 .. m+1,
    computed with the textbook law of EcGroup.  TLC checks the group axioms on every row (invariants
    below) and prints the row as JSON; the rig feeds P and the Q_j / k to the library and compares.     *)
-EXTENDS EcCurves, Json
-CONSTANTS CurveNames,        \* which curves of Curves8 to enumerate in this run
+EXTENDS EcCurvesX, Json
+CONSTANTS CurveNames,        \* which curves of Curves8 / EcCurvesX!CurvesX to enumerate in this run
           Heavy              \* TRUE: also full double-and-add agreement and associativity with 3 fixed points
 VARIABLES vCurve, vIdx, vPts, vRow
 vars == << vCurve, vIdx, vPts, vRow >>
@@ -21,7 +21,7 @@ Row(cv, ps, idx) ==
      dbl  |-> Dbl(cv, pp),
      dbln |-> [j \in 1..(cv.m + 1) |-> DblN(cv, pp, j)] ]
 
-Init == /\ vCurve \in { CurveByName(nm) : nm \in CurveNames }
+Init == /\ vCurve \in { CurveByNameX(nm) : nm \in CurveNames }
         /\ vIdx = 1
         /\ vPts = GroupSeq(vCurve)
         /\ vRow = Row(vCurve, vPts, 1)
